@@ -120,8 +120,8 @@ theorem fields_set {s : State} {tokens' : AMap String Token} {sym : String} {t' 
   · simp only [hk, if_false] at ht2
     exact h sym2 t2 ht2
 
-/-- **every accepted operation keeps the facts `ValidateGenesis` relies on** (all 13 operations) -/
-theorem genOK_step (s s' : State) (op : Op) (hwf : WF s) (h : GenOK s) (hs : step s op = .ok s') : GenOK s' := by
+theorem genOK_step_core (s s' : State) (op : Op) (hn : norm op = op) (hwf : WF s) (h : GenOK s)
+    (hs : step s op = .ok s') : GenOK s' := by
   cases op with
   | issue owner symbol name minUnit scale init max mintable =>
     obtain ⟨hv, _, s1, h1, _, _, rfl⟩ := issue_ok hs
@@ -138,6 +138,28 @@ theorem genOK_step (s s' : State) (op : Op) (hwf : WF s) (h : GenOK s) (hs : ste
     obtain ⟨_, _, sym, s1, _, h1, h2⟩ := mint_ok hs
     obtain ⟨_, _, _, _, _, _, _, rfl⟩ := deductFee_ok h1
     obtain ⟨_, _, _, _, _, rfl⟩ := mintChecked_ok h2
+    exact ⟨h.fields, h.params, h.burned⟩
+  | legacyIssue _ _ _ _ _ _ _ _ => cases hn
+  | legacyEdit _ _ _ _ _ => cases hn
+  | legacyTransferOwner _ _ _ => cases hn
+  | legacyMint owner to symbol amount =>
+    obtain ⟨_, _, t, _, _, _, hh⟩ := legacyMint_ok hs
+    obtain ⟨_, sym, s1, _, h1, h2⟩ := mintH_ok hh
+    obtain ⟨_, _, _, _, _, _, _, rfl⟩ := deductFee_ok h1
+    obtain ⟨_, _, _, _, _, rfl⟩ := mintChecked_ok h2
+    exact ⟨h.fields, h.params, h.burned⟩
+  | legacyBurn sender symbol amount =>
+    -- the coin constructor of the adapter has already checked the min unit as a denom
+    obtain ⟨_, _, t, _, _, hvd, hh⟩ := legacyBurn_ok hs
+    obtain ⟨_, b, _, rfl⟩ := burnH_ok hh
+    refine ⟨h.fields, h.params, ?_⟩
+    intro d hdk
+    simp only at hdk
+    rcases (mem_keys_set _ _ _ _).mp hdk with e | e
+    · subst e; exact hvd
+    · exact h.burned d e
+  | upgradeErc20 authority impl =>
+    obtain ⟨_, _, _, _, _, rfl⟩ := upgrade_ok hs
     exact ⟨h.fields, h.params, h.burned⟩
   | burn sender denom amount =>
     have hd := burn_valid (show stepBurn s sender denom amount = .ok s' from hs)
@@ -194,6 +216,11 @@ theorem genOK_step (s s' : State) (op : Op) (hwf : WF s) (h : GenOK s) (hs : ste
     have f := logs_frame (evmTx_ok hs)
     exact ⟨fields_of_same h.fields f.tokens, by rw [f.params]; exact h.params,
       by intro d hd; rw [f.burned] at hd; exact h.burned d hd⟩
+
+/-- **every accepted operation keeps the facts `ValidateGenesis` relies on** (all 19 operations: both
+Msg services, conversions, deployment, upgrade) -/
+theorem genOK_step (s s' : State) (op : Op) (hwf : WF s) (h : GenOK s) (hs : step s op = .ok s') : GenOK s' :=
+  genOK_step_core s s' (norm op) (norm_idem op) hwf h (by rw [← step_norm]; exact hs)
 
 theorem genOK_genesis (bank : Bank) (p : Params) (env : Env) (hp : paramsValid p = true) :
     GenOK (genesis bank p env) := by
@@ -542,7 +569,7 @@ theorem roundtrip (s : State) (hwf : WF s) (hown : OwnIdx s) (hc : CtrOK s) (hg 
         rw [mem_keys_iff, mem_keys_iff]
         simp only [s']
         rw [eburn],
-      params := rfl, bank := rfl, nonce := rfl, evm := rfl, fault := rfl, env := rfl }
+      params := rfl, bank := rfl, nonce := rfl, evm := rfl, fault := rfl, impl := rfl, env := rfl }
   refine ⟨s', himp, hobs, rfl, ?_, ?_⟩
   · show exportTokens s' = exportTokens s
     unfold exportTokens
@@ -586,6 +613,6 @@ theorem reimport_ok_obsEq (s s' : State) (hwf : WF s) (hown : OwnIdx s) (hc : Ct
         rw [mem_keys_iff, mem_keys_iff]
         simp only
         rw [eburn'],
-      params := rfl, bank := rfl, nonce := rfl, evm := rfl, fault := rfl, env := rfl }
+      params := rfl, bank := rfl, nonce := rfl, evm := rfl, fault := rfl, impl := rfl, env := rfl }
 
 end Irismod.Proofs.TokenGenesis
